@@ -162,6 +162,15 @@ basic::CommandSignature BuildNode::getSignature() const {
   for (auto* producer : getProducers()) {
     sig.combine(producer->getName());
   }
+  // The exclusion patterns decide which entries the directory signatures of
+  // this node cover, so a change of the patterns must invalidate the node.
+  auto patterns = exclusionPatterns.getValues();
+  if (!patterns.empty()) {
+    sig.combine(static_cast<uint64_t>(patterns.size()));
+    for (auto pattern : patterns) {
+      sig.combine(pattern);
+    }
+  }
   return sig;
 }
 
